@@ -414,3 +414,15 @@ func fieldNameOf(t types.Type, i int) string {
 	}
 	return st.Field(i).Name()
 }
+
+// posOr: p, or fallback when p is not a valid position (synthetic instructions carry none). A position used as an
+// "is there a violation" flag must never be NoPos.
+func posOr(p, fallback token.Pos) token.Pos {
+	if p != token.NoPos {
+		return p
+	}
+	if fallback != token.NoPos {
+		return fallback
+	}
+	return token.Pos(1)
+}
